@@ -209,6 +209,17 @@ def check_plot_contour(case, bad):
 # --------------------------------------------------------------------------------------------- other plots
 def fitted_model(which):
     from virocon import GlobalHierarchicalModel, NumberOfIntervalsSlicer, WidthOfIntervalSlicer, DependenceFunction
+    if which == "star3":    # two conditional dimensions (both on variable 0): several groups of axes in the parameter plots
+        fams, cond = ["WeibullDistribution", "LogNormalDistribution", "WeibullDistribution"], [None, 0, 0]
+        src, _ = zoo.build_model(fams, cond, "A")
+        data = src.draw_sample(3000, random_state=8)
+        m, _ = zoo.build_model(fams, cond, "A")
+        m.interval_slicers[0] = NumberOfIntervalsSlicer(5, min_n_points=30, value_range=(float(np.quantile(data[:, 0], 0.01)),
+                                                                                           float(np.quantile(data[:, 0], 0.97))))
+        with warnings.catch_warnings():
+            warnings.simplefilter("ignore")
+            m.fit(data)
+        return m, data
     if which == "w_ln":
         src, _ = zoo.build_model(["WeibullDistribution", "LogNormalDistribution"], [None, 0], "A")
         fams = ["WeibullDistribution", "LogNormalDistribution"]
@@ -233,8 +244,9 @@ def check_other_plots(case, bad):
                          plot_marginal_quantiles)
     m, data = fitted_model(case["model"])
     n = 0
-    # ---- isodensity
-    for swap, lim, lev in itertools.product((False, True), (None, [(0.2, 5.0), (0.5, 9.0)]), (None, [1e-3, 1e-2, 1e-1])):
+    cond_dims = [d for d in range(m.n_dim) if m.conditional_on[d] is not None]
+    # ---- isodensity (2-D models)
+    for swap, lim, lev in (itertools.product((False, True), (None, [(0.2, 5.0), (0.5, 9.0)]), (None, [1e-3, 1e-2, 1e-1])) if m.n_dim == 2 else ()):
         n += 1
         sub = dict(case, which="isodensity")
         fig, ax = plt.subplots()
@@ -287,18 +299,25 @@ def check_other_plots(case, bad):
     sub = dict(case, which="dependence")
     try:
         axes = plot_dependence_functions(m)
-        dist = m.distributions[1]
-        cv = np.asarray(dist.conditioning_values, dtype=float)
-        x = np.linspace(0, max(cv))
-        for ax, (pname, dep) in zip(axes, dist.conditional_parameters.items()):
-            ln = ax.get_lines()
-            ey = np.asarray(dep(x), dtype=float)
-            if not any(np.array_equal(np.asarray(l.get_xdata(), dtype=float), x) and np.array_equal(np.asarray(l.get_ydata(), dtype=float), ey) for l in ln):
-                bad("dependence_plot", "line_values", {"parameter": pname}, sub)
-            est = np.array([p[pname] for p in dist.parameters_per_interval], dtype=float)
-            offs = [np.asarray(col.get_offsets(), dtype=float) for col in ax.collections]
-            if not any(o.shape == (len(cv), 2) and np.array_equal(o[:, 0], cv) and np.array_equal(o[:, 1], est) for o in offs):
-                bad("dependence_plot", "interval_estimates", {"parameter": pname}, sub)
+        n_expected = sum(len(m.distributions[d].conditional_parameters) for d in cond_dims)
+        if len(axes) != n_expected:
+            bad("dependence_plot", "number_of_axes", {"axes": len(axes), "dependent_parameters": n_expected}, sub)
+        k_ax = 0
+        for d in cond_dims:     # one axes per dependent parameter, in the order of the dimensions and their parameters
+            dist = m.distributions[d]
+            cv = np.asarray(dist.conditioning_values, dtype=float)
+            x = np.linspace(0, max(cv))
+            for pname, dep in dist.conditional_parameters.items():
+                ax = axes[k_ax]
+                k_ax += 1
+                ln = ax.get_lines()
+                ey = np.asarray(dep(x), dtype=float)
+                if len(ln) != 1 or not any(np.array_equal(np.asarray(l.get_xdata(), dtype=float), x) and np.array_equal(np.asarray(l.get_ydata(), dtype=float), ey) for l in ln):
+                    bad("dependence_plot", "line_values", {"parameter": pname, "dim": d, "lines_in_axes": len(ln)}, sub)
+                est = np.array([p[pname] for p in dist.parameters_per_interval], dtype=float)
+                offs = [np.asarray(col.get_offsets(), dtype=float) for col in ax.collections]
+                if len(offs) != 1 or not any(o.shape == (len(cv), 2) and np.array_equal(o[:, 0], cv) and np.array_equal(o[:, 1], est) for o in offs):
+                    bad("dependence_plot", "interval_estimates", {"parameter": pname, "dim": d, "scatters_in_axes": len(offs)}, sub)
     except Exception as e:
         bad("dependence_plot", "exception", {"type": type(e).__name__, "msg": str(e)[:160]}, sub)
     plt.close("all")
@@ -313,13 +332,14 @@ def check_other_plots(case, bad):
         e0 = np.asarray(m.distributions[0].pdf(x0), dtype=float)
         if not any(np.array_equal(np.asarray(l.get_xdata(), dtype=float), x0) and np.array_equal(np.asarray(l.get_ydata(), dtype=float), e0) for l in ax0.get_lines()):
             bad("histogram_plot", "marginal_pdf_line", {}, sub)
-        cd = m.distributions[1]
-        axs = np.ravel(axes_list[1])
-        for k, (dint, di) in enumerate(zip(cd.data_intervals, cd.distributions_per_interval)):
-            xx = np.linspace(np.min(dint), np.max(dint))
-            ee = np.asarray(di.pdf(xx), dtype=float)
-            if not any(np.array_equal(np.asarray(l.get_xdata(), dtype=float), xx) and np.array_equal(np.asarray(l.get_ydata(), dtype=float), ee) for l in axs[k].get_lines()):
-                bad("histogram_plot", "interval_pdf_line", {"interval": k}, sub)
+        for d in cond_dims:
+            cd = m.distributions[d]
+            axs = np.ravel(axes_list[d])
+            for k, (dint, di) in enumerate(zip(cd.data_intervals, cd.distributions_per_interval)):
+                xx = np.linspace(np.min(dint), np.max(dint))
+                ee = np.asarray(di.pdf(xx), dtype=float)
+                if not any(np.array_equal(np.asarray(l.get_xdata(), dtype=float), xx) and np.array_equal(np.asarray(l.get_ydata(), dtype=float), ee) for l in axs[k].get_lines()):
+                    bad("histogram_plot", "interval_pdf_line", {"interval": k, "dim": d}, sub)
     except Exception as e:
         bad("histogram_plot", "exception", {"type": type(e).__name__, "msg": str(e)[:160]}, sub)
     plt.close("all")
@@ -423,7 +443,7 @@ def main(ctx):
         cases.append({"kind": "save", "contour": c, "semantics": list(SEMANTICS), "paths": PATHS})
     for c in ("iform", "iform_3pts", "iform_negative", "isorm", "hdc", "ds", "and", "or"):
         cases.append({"kind": "plot_contour", "contour": c})
-    for mname in ("w_ln", "ln_w"):
+    for mname in ("w_ln", "ln_w", "star3"):
         cases.append({"kind": "other_plots", "model": mname})
     for rows in (1, 2, 3, 10, 1000, 10000):
         for cols in (2, 3):
